@@ -19,18 +19,18 @@ for f in sorted(glob.glob(V + "/evidence/C*.json")):
 
 if "--mutants" in sys.argv:
     print()
-    print("| mutant | what was changed | check run | outcome | by |")
-    print("|---|---|---|---|---|")
+    print("| mutant | what was changed | check run | /repo HEAD | outcome | by |")
+    print("|---|---|---|---|---|---|")
     for d in sorted(glob.glob(V + "/seeded/*/")):
         mid = os.path.basename(d.rstrip("/"))
         meta = json.load(open(d + "meta.json"))
         short = meta["summary"].split(". ")[0][:230]
         rs = sorted(glob.glob(d + "result-*.json"))
         if not rs:
-            print("| %s | %s | – | not run | |" % (mid, short))
+            print("| %s | %s | – | | not run | |" % (mid, short))
         for rf in rs:
             r = json.load(open(rf))
             harn = sorted(set(l.split("harness=")[1].split(" ")[0] for l in r.get("lines", []) if l.strip().startswith("harness=")))
             what = "%s %s%s" % (r["property_checked"], r["tier"], (" --only " + r["only"]) if r.get("only") else "")
             out = {1: "**detected**", 0: "missed", 2: "inconclusive"}.get(r["exit_code"], str(r["exit_code"]))
-            print("| %s | %s | %s (%ss) | %s | %s |" % (mid, short, what, r["wall_s"], out, ", ".join(harn)[:160]))
+            print("| %s | %s | %s (%ss) | %s | %s | %s |" % (mid, short, what, r["wall_s"], r.get("repo_head", "?"), out, ", ".join(harn)[:160]))
